@@ -2,7 +2,7 @@
    Property theorems only; proofs live in UnixProofs.v / CoreSched.v / CoreProofs.v. *)
 From Coq Require Import List NArith Bool.
 Import ListNotations.
-From TP Require Import Core Path Unix StdUnix Spec Ops UnixProofs StdProofs.
+From TP Require Import Core Path Unix StdUnix Spec Ops UnixProofs StdProofs StdInterleave.
 
 (* For every byte string p and every schedule of front/back steps, what the model of
    typed-path's Unix parser answers (components, and after every step the remaining bytes)
@@ -58,9 +58,27 @@ Print Assumptions C01_std_back_step.
 Print Assumptions C01_std_remainder_front.
 Print Assumptions C01_std_remainder_back.
 Print Assumptions C01_std_has_root.
-(* C01_std_interleave_partial: for the transcription, arbitrary interleavings of front and back steps
-   (where std's front and back state meet in the middle) are not proved; front-only and back-only runs
-   are.  Arbitrary interleavings of the real std::path are compared on every explored case. *)
+(* arbitrary interleavings of the transcription (std's front and back state meeting in the middle):
+   every schedule of next / next_back pops the specification list from the chosen ends, the remainder
+   std shows after every step (Components::as_path) reads as what is left, and therefore the model of
+   typed-path and the transcription of std agree step for step.  (This was C01_std_interleave_partial
+   until StdInterleave.v; the transcription itself is tied to the real std::path by running both on
+   every explored case, interleavings included.) *)
+Theorem C01_std_interleave : forall (l : list N) (sched : list bool),
+  map (fun x => (fst x, ucomps (s_as_path (snd x)))) (sched_run s_nextf s_nextb (s_init l) sched)
+  = deq_run (ucomps l) sched.
+Proof. exact s_sched_remainders. Qed.
+Theorem C01_model_vs_std_interleave : forall (l : list N) (sched : list bool),
+  map (fun x => (fst x, ucomps (u_remaining (snd x)))) (sched_run u_nextf u_nextb (u_init l) sched)
+  = map (fun x => (fst x, ucomps (s_as_path (snd x)))) (sched_run s_nextf s_nextb (s_init l) sched).
+Proof. exact u_s_sched_agree. Qed.
+Print Assumptions C01_std_interleave.
+Print Assumptions C01_model_vs_std_interleave.
+(* non-vacuity of the new case: a back step taken after the front has entered the body *)
+Example C01_std_interleave_example :
+  map (fun x => fst x) (sched_run s_nextf s_nextb (s_init [47;97;47;46;47;47;46;46;47;98;47]) [false;true;false;true;true;false])
+  = [Some Root; Some (Normal [98]); Some (Normal [97]); Some Parent; None; None].
+Proof. vm_compute. reflexivity. Qed.
 
 (* non-vacuity: a concrete path with root, a "." segment, "..", doubled separators, mixed schedule *)
 Example C01_example :
